@@ -40,8 +40,19 @@ impl Authorizer {
             Some(execution_time) => Ok(execution_time),
             None => {
                 let start = Instant::now();
-                self.world
-                    .run_with_limits(&self.symbols, self.limits.clone())?;
+                // the iteration budget is cumulative: a call retried after a
+                // run-limit error only gets what is left of it
+                let mut limits = self.limits.clone();
+                limits.max_iterations =
+                    match limits.max_iterations.checked_sub(self.world.iterations) {
+                        Some(remaining) => remaining,
+                        None => {
+                            return Err(error::Token::RunLimit(
+                                error::RunLimit::TooManyIterations,
+                            ))
+                        }
+                    };
+                self.world.run_with_limits(&self.symbols, limits)?;
                 let execution_time = start.elapsed();
                 self.execution_time = Some(execution_time);
                 Ok(execution_time)
